@@ -31,9 +31,9 @@ structure St where
   files : List Str
   /-- `DependencyGraph`: (child, parent) -/
   deps : List (Key × Key)
-  /-- services their host still resolves (`Host::m_Services`, read by `Service::GetByNamePair`): entered by
-      `Service::OnAllConfigLoaded` (service.cpp:54-57) — and NEVER removed, `Host::RemoveService` has no
-      caller (F-C17f) -/
+  /-- services their host resolves (`Host::m_Services`, read by `Service::GetByNamePair`): entered by
+      `Service::OnAllConfigLoaded`, removed by `Service::Stop(runtimeRemoved)` → `Host::RemoveService`
+      (after edf9289; before it the entry was never removed, F-C17f) -/
   hostServices : List Key
 deriving DecidableEq, Repr, Inhabited
 
@@ -127,53 +127,42 @@ def removeObj (st : St) (o : Obj) : St :=
     items := st.items.filter (· ≠ o.key),
     files := if o.api then rmFile o.file st.files else st.files,
     deps := st.deps.filter (fun e => e.1 ≠ o.key ∧ e.2 ≠ o.key),
-    -- no `RemoveService`: the deleted service stays resolvable through its host
-    hostServices := st.hostServices }
+    -- `Service::Stop(true)` → `m_Host->RemoveService(this)`
+    hostServices := st.hostServices.filter (· ≠ o.key) }
 
 /-- `Service::GetByNamePair`: what a new Comment/Downtime/Notification/Dependency for that service finds. -/
 def St.resolvesService (st : St) (k : Key) : Bool := st.hostServices.contains k
 
-/-- one child of the loop at 323-325: the helper's result is ignored; a child that an earlier
+/-- one child of the loop over the dependents: the helper's result is ignored; a child that an earlier
     sibling's cascade already removed is a no-op. -/
 def deleteChild (rec : St → Obj → St) (s : St) (c : Key) : St :=
   match s.find c with
   | some co => rec s co
   | none => s
 
-/-- `DeleteObjectHelper` (303-375).  Fuel bounds the depth of the dependency graph. -/
-def deleteHelper : Nat → St → Obj → Bool → St × Bool
-  | 0, st, o, _ => (removeObj st o, true)
-  | f + 1, st, o, cascade =>
+/-- `DeleteObjectHelper`.  `busy` = `l_DeletionInProgress` (after 6a109cb): the objects whose deletion is
+    under way further up the call stack; an object met again (it depends on itself, directly or
+    through others) is not visited a second time.  The guard sits AFTER the refusal of a
+    non-cascading delete with dependents.  Fuel bounds the recursion depth (every level adds a new
+    object to `busy`, so the number of objects plus one is enough). -/
+def deleteHelper : Nat → St → Obj → Bool → List Key → St × Bool
+  | 0, st, o, _, _ => (removeObj st o, true)
+  | f + 1, st, o, cascade, busy =>
     let ch := children st o.key
     if !ch.isEmpty && !cascade then (st, false)
+    else if busy.contains o.key then (st, true)
     else
-      let st1 := ch.foldl (deleteChild (fun s co => (deleteHelper f s co cascade).1)) st
+      let st1 := ch.foldl (deleteChild (fun s co => (deleteHelper f s co cascade (o.key :: busy)).1)) st
       (removeObj st1 o, true)
 
-/-- transitive dependents of `acc` -/
-def dependentsClosure : Nat → St → List Key → List Key
-  | 0, _, acc => acc
-  | f + 1, st, acc =>
-    let more := ((acc.flatMap (children st)).filter (fun c => !acc.contains c)).eraseDups
-    if more.isEmpty then acc else dependentsClosure f st (acc ++ more)
-
-/-- some object that a cascading delete of `k` visits depends (transitively) on itself: the recursion
-    of `DeleteObjectHelper` (323-325 visits the dependents BEFORE the object is deactivated and
-    unregistered) then never ends — the process dies of stack exhaustion (F-C17g; e.g. a TimePeriod
-    whose `includes` names itself) -/
-def cascadeCycle (st : St) (k : Key) : Bool :=
-  (dependentsClosure st.objs.length st [k]).any
-    (fun x => (dependentsClosure st.objs.length st (children st x)).contains x)
-
-/-- `DeleteObject` (377-388) for an existing object.  `.threw` also stands for "does not return". -/
+/-- `DeleteObject` for an existing object. -/
 def deleteObject (st : St) (k : Key) (cascade : Bool) : St × Res :=
   match st.find k with
   | none => (st, .fail)
   | some o =>
     if !o.api then (st, .fail)
-    else if cascade && cascadeCycle st k then (st, .threw)
     else
-      let r := deleteHelper st.objs.length st o cascade
+      let r := deleteHelper (st.objs.length + 1) st o cascade []
       (r.1, if r.2 then .ok else .fail)
 
 inductive Op where
